@@ -99,6 +99,8 @@ type deepCase struct {
 	// one request carries batches of several partitions and the word refuses several of them in one response
 	parts   int
 	delayMs int
+	// noLeaderFor > 0: the word contains a leaderless window (fNoLeader) of that many metadata requests
+	noLeaderFor int
 }
 
 func deepCases(prop, tier string) []directedCase {
@@ -123,6 +125,18 @@ func deepCases(prop, tier string) []directedCase {
 		for _, fl := range []int{0, 2, 3} {
 			for _, pause := range []int{100, 300, 1000} {
 				out = append(out, directedCase{deep: &deepCase{word: w, flush: fl, pauseUs: pause}, retry: 5, idem: prop == "C05"})
+			}
+		}
+	}
+	// a refusal followed by a refusal that leaves the partition leaderless: retry level 2 opens while no
+	// leader can be found, for the retried message and for the flush of what was parked meanwhile
+	N := fNoLeader
+	for _, w := range [][]int{{R, N}, {O, R, N}, {R, N, O, R}, {R, R, N}} {
+		for _, nl := range []int{6, 12, 20} {
+			for _, pause := range []int{300, 2500} {
+				for _, fl := range []int{0, 2} {
+					out = append(out, directedCase{deep: &deepCase{word: w, flush: fl, pauseUs: pause, noLeaderFor: nl}, retry: 4, idem: prop == "C05"})
+				}
 			}
 		}
 	}
@@ -181,7 +195,7 @@ func directedScenario(prop string, c directedCase, rng *rand.Rand) *prodScenario
 		sc.Acks = sarama.WaitForAll
 	}
 	if c.deep != nil {
-		sc.NoLeaderFor = 0
+		sc.NoLeaderFor = c.deep.noLeaderFor
 		if c.deep.flush > 0 {
 			sc.FlushMessages, sc.FlushFreq = c.deep.flush, 2*time.Millisecond
 		}
